@@ -36,6 +36,11 @@ def opt(rng, kind, full=False):
     return o
 
 
+def pa_deg(e):
+    d = e['pa'][1] * S.ffactor('Angle', e['pa'][2]) / S.ffactor('Angle', 'deg')
+    return min(PA, key=lambda x: abs(x - d))
+
+
 def gen_pair(rng):
     kind = rng.choice(['spur', 'helical', 'wormwheel', 'wheelworm'])
     full = rng.random() < 0.6
@@ -57,8 +62,13 @@ def gen_pair(rng):
         pa = rng.choice(PA)
         hw = ['Angle', rng.uniform(1, HMAX[pa]), 'deg']
         hh = hw if rng.random() < 0.6 else ['Angle', rng.uniform(1, HMAX[pa]), 'deg']        # the wheel's own helix angle may differ
-        worm = dict(kind='worm', z=rng.randint(1, 4), helix=hw, pa=['Angle', pa, 'deg'], opt=opt(rng, 'worm', full))
-        wheel = dict(kind='wheel', z=rng.randint(10, 80), helix=hh, pa=['Angle', pa, 'deg'], opt=opt(rng, 'wheel', full))
+        paq = ['Angle', pa, 'deg']
+        if rng.random() < 0.3:               # the tabulated angle in another unit, possibly an ulp or a sub-tolerance amount off (list.index semantics)
+            u = rng.choice(S.units('Angle'))
+            v = pa * S.ffactor('Angle', 'deg') / S.ffactor('Angle', u)
+            paq = ['Angle', rng.choice([v, v, math.nextafter(v, math.inf), v * (1 + 2e-16), v + 1e-14 * S.ffactor('Angle', 'deg') / S.ffactor('Angle', u)]), u]
+        worm = dict(kind='worm', z=rng.randint(1, 4), helix=hw, pa=paq, opt=opt(rng, 'worm', full))
+        wheel = dict(kind='wheel', z=rng.randint(10, 80), helix=hh, pa=paq, opt=opt(rng, 'wheel', full))
         a, b = (worm, wheel) if kind == 'wormwheel' else (wheel, worm)
     tq = lambda: scen.in_unit(rng, 'Torque', rng.choice([0.0, rng.uniform(-50, 50), rng.uniform(-1, 1) * 1e-3]))  # noqa
     return dict(pair=kind, a=a, b=b, torques=[[tq(), tq()], [tq(), tq()]], mated=rng.random() < 0.93, f=rng.uniform(0.01, 0.2))
@@ -278,7 +288,7 @@ def doc_check(r):
             bb = math.atan(math.cos(at) * math.tan(b))
             want = lewis_doc(e['z'] / math.cos(bb) ** 2 / math.cos(b))
         else:
-            want = WORM_Y[e['pa'][1]]
+            want = WORM_Y[pa_deg(e)]
         if abs(got[1] - want) > 1e-9:
             return W('lewis', f'Lewis factor of {e["kind"]} z={e["z"]} is {got[1]!r}, the table gives {want!r}')
         return []
@@ -305,7 +315,7 @@ def doc_check(r):
             dw = si_len(m['opt']['reference_diameter'])
             pn = math.pi * dw * math.sin(rad(m['helix'])) / e['z']
             beff = min(si_len(o['face_width']), 0.67 * dw)
-            want = ft / (pn * beff * WORM_Y[e['pa'][1]])
+            want = ft / (pn * beff * WORM_Y[pa_deg(e)])
         else:
             Y = doc_check(dict(r, what='lewis', got=['N', 0]))  # not used
             if e['kind'] == 'spur':
